@@ -8,8 +8,9 @@ EXTENDS Integers, Sequences, FiniteSets, TraceBase
 CONSTANT MinTol                       \* bound on the distance to the true minimiser, 1e-9 units
 Lt(a, b) == \/ a[1] < b[1] \/ (a[1] = b[1] /\ a[2] < b[2]) \/ (a[1] = b[1] /\ a[2] = b[2] /\ a[3] < b[3])
 Le(a, b) == Lt(a, b) \/ a = b
-VARIABLES l, n, cap, cnt, f, pc, buf, fr, best0, ret
-vars == <<l, n, cap, cnt, f, pc, buf, fr, best0, ret>>
+VARIABLES l, n, cap, cnt, f, pc, buf, fr, best0, ret,
+          sc0       \* start class announced by the Reset line (2, 3: all n+1 initial values EQUAL, 4: equal to 1e-12) - verified on the Evals
+vars == <<l, n, cap, cnt, f, pc, buf, fr, best0, ret, sc0>>
 Zero == <<0,0,0>>
 \* insertion sort of a sequence of codes (ascending); values only
 RECURSIVE Ins(_,_)
@@ -17,17 +18,20 @@ Ins(s, v) == IF s = <<>> THEN <<v>> ELSE IF Le(v, s[1]) THEN <<v>> \o s ELSE <<s
 RECURSIVE Sort(_)
 Sort(s) == IF s = <<>> THEN <<>> ELSE Ins(Sort(Tail(s)), s[1])
 ReplaceWorst(s, v) == Sort(SubSeq(s, 1, Len(s) - 1) \o <<v>>)
-Init == l = 1 /\ n = 0 /\ cap = 0 /\ cnt = 0 /\ f = <<>> /\ pc = "idle" /\ buf = <<>> /\ fr = Zero /\ best0 = Zero /\ ret = Zero
+Init == l = 1 /\ n = 0 /\ cap = 0 /\ cnt = 0 /\ f = <<>> /\ pc = "idle" /\ buf = <<>> /\ fr = Zero /\ best0 = Zero /\ ret = Zero /\ sc0 = 0
 Ev == Tr[l]
 Step == l' = l + 1
 TReset == /\ l <= Len(Tr) /\ Ev.e = "Reset" /\ pc = "idle" /\ Step
-          /\ n' = Ev.n /\ cap' = Ev.cap /\ cnt' = 0 /\ f' = <<>> /\ pc' = "init" /\ buf' = <<>> /\ UNCHANGED <<fr, best0, ret>>
+          /\ Ev.n \in 2..6                                      \* inside the quantifier
+          /\ (Ev.sc \in {2, 3} => Ev.fs = 0) /\ (Ev.sc = 4 => Ev.fs <= 1000)     \* flat-start classes: spread of the initial values (1e-15 units)
+          /\ n' = Ev.n /\ cap' = Ev.cap /\ cnt' = 0 /\ f' = <<>> /\ pc' = "init" /\ buf' = <<>> /\ sc0' = Ev.sc /\ UNCHANGED <<fr, best0, ret>>
 IsEval == l <= Len(Tr) /\ Ev.e = "Eval"
 V == <<Ev.v[1], Ev.v[2], Ev.v[3]>>
-Count == cnt' = cnt + 1 /\ UNCHANGED <<n, cap>>
+Count == cnt' = cnt + 1 /\ UNCHANGED <<n, cap, sc0>>
 InitEval == /\ IsEval /\ pc = "init" /\ Step /\ Count
             /\ IF Len(buf) + 1 = n + 1 THEN f' = Sort(buf \o <<V>>) /\ buf' = <<>> /\ pc' = "reflect" /\ best0' = Sort(buf \o <<V>>)[1]
                                        ELSE buf' = buf \o <<V>> /\ UNCHANGED <<f, pc, best0>>
+            /\ (sc0 \in {2, 3} /\ buf # <<>> => V = buf[1])     \* an exactly flat start really is flat: every initial value equals the first
             /\ UNCHANGED <<fr, ret>>
 \* the Gao-Han move conditions decide what the NEXT eval means
 Reflect == /\ IsEval /\ pc = "reflect" /\ Step /\ Count /\ UNCHANGED <<buf, best0, ret>>
@@ -36,7 +40,7 @@ Reflect == /\ IsEval /\ pc = "reflect" /\ Step /\ Count /\ UNCHANGED <<buf, best
                 [] Lt(r, f1)              -> f' = f /\ pc' = "expand" /\ fr' = r
                 [] Le(fn, r) /\ Lt(r, fw) -> f' = f /\ pc' = "oc" /\ fr' = r
                 [] Le(fw, r)              -> f' = f /\ pc' = "ic" /\ fr' = r
-                [] OTHER                  -> f' = f /\ pc' = "reflect" /\ fr' = r       \* r = f1 < fn: no branch taken
+                [] OTHER                  -> f' \in {f, ReplaceWorst(f, r)} /\ pc' = "reflect" /\ fr' = r   \* r = f1 < fn: the pinned tree takes no branch (and stalls), the textbook rule f1 <= r accepts the reflection
 Expand == /\ IsEval /\ pc = "expand" /\ Step /\ Count /\ UNCHANGED <<buf, best0, ret, fr>>
           /\ f' = ReplaceWorst(f, IF Lt(V, fr) THEN V ELSE fr) /\ pc' = "reflect"
 OC == /\ IsEval /\ pc = "oc" /\ Step /\ Count /\ UNCHANGED <<best0, ret, fr>>
@@ -50,16 +54,17 @@ Shrink == /\ IsEval /\ pc = "shrink" /\ Step /\ Count /\ UNCHANGED <<best0, ret,
                                      ELSE buf' = buf \o <<V>> /\ UNCHANGED <<f, pc>>
 \* Stop is unobservable: Return may come whenever a whole iteration is finished
 Return == /\ l <= Len(Tr) /\ Ev.e = "Return" /\ pc = "reflect" /\ Step
-          /\ ret' = V /\ pc' = "returned" /\ UNCHANGED <<n, cap, cnt, f, buf, fr, best0>>
+          /\ ret' = V /\ pc' = "returned" /\ UNCHANGED <<n, cap, cnt, f, buf, fr, best0, sc0>>
           /\ Ev.evals = cnt /\ cnt <= cap                      \* Prop: evaluation count within the cap
           /\ Le(ret', best0)                                   \* Prop: never worse than the best initial vertex
           /\ ret' = f[1]                                       \* Impl: it is the best vertex of the final simplex
 Check == /\ l <= Len(Tr) /\ Ev.e = "Check" /\ pc = "returned" /\ Step
          /\ V = ret                                            \* Prop: reported value = f(returned point)
-         /\ pc' = "checked" /\ UNCHANGED <<n, cap, cnt, f, buf, fr, best0, ret>>
+         /\ pc' = "checked" /\ UNCHANGED <<n, cap, cnt, f, buf, fr, best0, ret, sc0>>
 Quad == /\ l <= Len(Tr) /\ Ev.e = "Quad" /\ pc = "checked" /\ Step
-        /\ (Ev.judge = 1 => Ev.dist <= MinTol)
-        /\ pc' = "idle" /\ UNCHANGED <<n, cap, cnt, f, buf, fr, best0, ret>>
+        /\ (Ev.judge = 1 => Ev.dist <= MinTol)               \* Prop: converges - for EVERY start class (generic, flat, at the minimiser, far, any step decade)
+        /\ Ev.sc = sc0 /\ Ev.dim = n
+        /\ pc' = "idle" /\ UNCHANGED <<n, cap, cnt, f, buf, fr, best0, ret, sc0>>
 Next == TReset \/ InitEval \/ Reflect \/ Expand \/ OC \/ IC \/ Shrink \/ Return \/ Check \/ Quad
 Spec == Init /\ [][Next]_vars
 \* the best vertex of the current simplex is never worse than the best initial vertex
